@@ -769,8 +769,18 @@ fn ranks(doc: &dom::XmlDocument, skip_empty: bool) -> HashMap<(String, usize), u
 }
 
 /// (ranks of the selected nodes, the same ignoring empty merged text nodes)
-fn query_ranks(doc: &dom::XmlDocument, expr: &str) -> (String, String) {
+/// the namespace bindings every query context of this domain carries (the campaign documents use the
+/// namespace names u1, u2 and d)
+fn bound_context() -> xml_xpath::eval::model::Context {
     let mut ctx = xml_xpath::eval::model::Context::default();
+    ctx.add_ns(Some("n1"), "u1");
+    ctx.add_ns(Some("n2"), "u2");
+    ctx.add_ns(Some("nd"), "d");
+    ctx
+}
+
+fn query_ranks(doc: &dom::XmlDocument, expr: &str) -> (String, String) {
+    let mut ctx = bound_context();
     query_ranks_ctx(doc, expr, &mut ctx)
 }
 
@@ -977,7 +987,7 @@ pub fn case(line: &str) -> String {
     if w.len() < 2 + nd {
         return "badinput".to_string();
     }
-    let mut st = St { docs: vec![], hs: vec![], index: HashMap::new(), ext, frag_owner: HashMap::new(), xctx: xml_xpath::eval::model::Context::default() };
+    let mut st = St { docs: vec![], hs: vec![], index: HashMap::new(), ext, frag_owner: HashMap::new(), xctx: bound_context() };
     for k in 0..nd {
         let text = match dec(w[2 + k]) {
             Some(t) => t,
